@@ -220,6 +220,7 @@ pub fn plan(property: &str, tier: Tier) -> Option<Plan> {
                 jobs.push(g("c09/subs", prof, if q { 5 } else { 8 }).armed(&a).order(Some(true)));
                 jobs.push(g("c11/on_update", prof, if q { 4 } else { 6 }).armed(&a));
                 jobs.push(g("c11/drop_handles", prof, if q { 5 } else { 7 }).armed(&a));
+                jobs.push(g("c05/drop_handles", prof, if q { 6 } else { 8 }).armed(&a));
             }
             ("model_checking", mc_rule, vec!["only well-formed histories are generated (no nested stabilise, no cycles, default height limit, one state, closures own no observers)", "both debug-assertion configurations, same bounds"], if q { 60 } else { 1500 })
         }
@@ -230,6 +231,8 @@ pub fn plan(property: &str, tier: Tier) -> Option<Plan> {
                 jobs.push(g("c01/grammar3-binds", "rel", 5).armed(&a));
             }
             jobs.push(g("c05/clones", "rel", if q { 6 } else { 8 }).armed(&a));
+            jobs.push(g("c05/drop_handles", "rel", if q { 7 } else { 9 }).armed(&a));
+            jobs.push(g("c05/drop_handles", "dbg", if q { 6 } else { 8 }).armed(&a));
             jobs.push(g("c01/catalogue", "rel", if q { 6 } else { 8 }).armed(&a));
             jobs.push(g(if q { "c01/grammar2-repr" } else { "c01/grammar2" }, "rel", if q { 5 } else { 6 }).armed(&a));
             jobs.push(g("c03/inner", "rel", if q { 4 } else { 6 }).armed(&a));
@@ -302,6 +305,7 @@ pub fn plan(property: &str, tier: Tier) -> Option<Plan> {
             jobs.push(g("c01/grammar1", "rel", if q { 5 } else { 8 }).armed(&a));
             jobs.push(g("c11/on_update", "rel", if q { 5 } else { 7 }).armed(&a));
             jobs.push(g("c11/drop_handles", "rel", if q { 5 } else { 7 }).armed(&a));
+            jobs.push(g("c05/drop_handles", "rel", if q { 6 } else { 8 }).armed(&a));
             jobs.push(g("c03/inner", "rel", if q { 3 } else { 5 }).armed(&a));
             let mut j = g("c09/subs", "rel", if q { 5 } else { 7 }).armed(&a);
             j.split_first = true;
@@ -382,7 +386,18 @@ pub fn plan(property: &str, tier: Tier) -> Option<Plan> {
                 jobs.push(w("c15/rounds-merge", "rel", 2).no_prune());
                 jobs.push(w("c15/single", "dbg", 4));
                 jobs.push(w("c15/rounds-single-k2", "dbg", 3).no_prune());
+                // operators that run on an input equal to their stored one (input var with Cutoff::Never, or
+                // observed on its own while the operator is detached); added after seed C17-a
+                jobs.push(w("c15/rounds-never-core-k2", "rel", 3).no_prune());
+                jobs.push(w("c15/never-core-k2", "rel", 7));
+                jobs.push(w("c15/rounds-pinned-tiny-k2", "rel", 4).no_prune());
+                jobs.push(w("c15/pinned-core-k2", "rel", 7));
             } else {
+                jobs.push(w("c15/rounds-never-core", "rel", 3).no_prune());
+                jobs.push(w("c15/never-core", "rel", 8));
+                jobs.push(w("c15/rounds-pinned-core-k2", "rel", 4).no_prune());
+                jobs.push(w("c15/pinned-core-k2", "rel", 11));
+                jobs.push(w("c15/rounds-never-pinned-core-k2", "rel", 4).no_prune());
                 jobs.push(w("c15/single", "rel", 16));
                 jobs.push(w("c15/rounds-single", "rel", 3).no_prune());
                 let mut j = w("c15/rounds-core", "rel", 4).no_prune();
